@@ -167,8 +167,10 @@ def lattice_origins(spec):
     return [(float(ax + i * dh), float(ay + j * dh)) for i, j in spec["cells"]]
 
 
-def build_region(spec):
-    """returns (region, cells[(i, j)], flags[0/1]) ; cells are bounding-box lattice coordinates in polygon order"""
+def build_region(spec, origins=None):
+    """returns (region, cells[(i, j)], flags[0/1]) ; cells are bounding-box lattice coordinates in polygon order.
+    `origins`: the origin coordinates computed beforehand (the harness computes them with Decimal arithmetic, which must not run
+    inside a lowered decimal context that is meant for the LIBRARY calls only)"""
     from csep.core.regions import CartesianGrid2D, compute_vertices
     from csep.models import Polygon
     if spec["kind"] == "shipped":
@@ -187,7 +189,7 @@ def build_region(spec):
         pm = getattr(region, "poly_mask", None)      # shipped regions carry no per-cell mask
         flags = [1] * len(cells) if pm is None else [1 if m == 1 else 0 for m in pm]
         return region, cells, flags
-    origins = lattice_origins(spec)
+    origins = lattice_origins(spec) if origins is None else origins
     dhf = float(Decimal(spec["dh"]))
     if spec.get("dh_int") and dhf == int(dhf):
         dhf = int(dhf)
@@ -1520,7 +1522,7 @@ def replay(run, payload):
     if str(case.get("what", "")).startswith("ops:"):
         # a derived-region / catalog-session case: the region with freshly generated points, the operation re-drawn from its seed
         only = dict(masked_region=["masked"], filter_spatial=["filter"], increase_grid_resolution=["incres"],
-                    grid_spacing=["incres"], shared_session=["shared"], aftershock_region=["aftershock"], rebinding_history=["rebind"], sizes_and_forms=["sizes"], nonfinite=["nonfinite"], big_catalog=["big"]).get(case["what"][4:], ["eq"])
+                    grid_spacing=["incres"], shared_session=["shared"], aftershock_region=["aftershock"], rebinding_history=["rebind"], sizes_and_forms=["sizes"], copies_and_state=["copies"], nonfinite=["nonfinite"], big_catalog=["big"]).get(case["what"][4:], ["eq"])
         check_region(run, drv, pending, spec, pts=None, rng=__import__("random").Random(case.get("ops_seed", 0)), arrays=arrays,
                      tag="replay", build=False, ops_seed=case.get("ops_seed", 0), ops_only=only)
     else:
